@@ -11,6 +11,7 @@ sin² + cos² = 1).  `cosBeta ≠ 0` is not listed separately: it follows from t
 -/
 import HypnoModel.Gen.Metric
 import HypnoModel.Lemmas.Metric
+import HypnoModel.Gen.Geom1
 
 namespace HypnoModel.Props.C02
 open Real Gen.R.Metric MetricLemmas
@@ -398,5 +399,66 @@ example := g_11_is_displacement_product (R := 2) (Bp := -1 / 2) (hy := 1 / 3) (d
       abs_of_neg (by norm_num)]
     norm_num)
 end examples
+
+/-! ## 9. g11 = |∇ψ|², g_11 = squared displacement between neighbouring flux surfaces per unit dx
+
+x = ψ, so g11 = ∇x·∇x = |∇ψ|².  geometry1 sets Brxy = ψ_Z/R, Bzxy = −ψ_R/R, Bpxy = sqrt(Brxy² + Bzxy²) = |∇ψ|/|R| (Props/C03
+`Bpxy_sq`, `Bpxy_eq_gradpsi_over_R`) and gives it the sign bpsign. -/
+
+/-- with `Bp = |∇ψ|/R` the generated `g11` (both branches) is `ψ_R² + ψ_Z² = |∇ψ|²` -/
+theorem g11_eq_gradpsi_sq {R psiR psiZ : ℝ} (hy dphidy cosBeta tanBeta bpsign : ℝ) (hR : R ≠ 0) :
+    orth.g11 R (Real.sqrt (psiR ^ 2 + psiZ ^ 2) / R) hy dphidy cosBeta tanBeta bpsign = psiR ^ 2 + psiZ ^ 2 ∧
+    nonorth.g11 R (Real.sqrt (psiR ^ 2 + psiZ ^ 2) / R) hy dphidy cosBeta tanBeta bpsign = psiR ^ 2 + psiZ ^ 2 := by
+  have h : (R * (Real.sqrt (psiR ^ 2 + psiZ ^ 2) / R)) ^ 2 = psiR ^ 2 + psiZ ^ 2 := by
+    rw [mul_div_cancel₀ _ hR, Real.sq_sqrt (by positivity)]
+  exact ⟨by rw [orth_g11_eq, h], by rw [nonorth_g11_eq, h]⟩
+
+/-- the same on the value geometry1 actually assigns: `Bp = s · Bpxy(ψ_Z/R, −ψ_R/R)` with the GENERATED `Bpxy` (Gen/Geom1.lean)
+and either sign `s = ±1`, any sign of R -/
+theorem g11_eq_gradpsi_sq_Bpxy {R psiR psiZ s : ℝ} (hy dphidy cosBeta tanBeta bpsign : ℝ) (hR : R ≠ 0) (hs : s = 1 ∨ s = -1) :
+    orth.g11 R (s * Gen.R.Geom1.Bpxy (psiZ / R) (-psiR / R)) hy dphidy cosBeta tanBeta bpsign = psiR ^ 2 + psiZ ^ 2 ∧
+    nonorth.g11 R (s * Gen.R.Geom1.Bpxy (psiZ / R) (-psiR / R)) hy dphidy cosBeta tanBeta bpsign = psiR ^ 2 + psiZ ^ 2 := by
+  have hs2 : s ^ 2 = 1 := by rcases hs with rfl | rfl <;> norm_num
+  have hB : Gen.R.Geom1.Bpxy (psiZ / R) (-psiR / R) ^ 2 = (psiZ / R) ^ 2 + (-psiR / R) ^ 2 := by
+    unfold Gen.R.Geom1.Bpxy; exact Real.sq_sqrt (by positivity)
+  have h : (R * (s * Gen.R.Geom1.Bpxy (psiZ / R) (-psiR / R))) ^ 2 = psiR ^ 2 + psiZ ^ 2 := by
+    rw [mul_pow, mul_pow, hs2, hB]; field_simp; ring
+  exact ⟨by rw [orth_g11_eq, h], by rw [nonorth_g11_eq, h]⟩
+
+/-- orthogonal grid: for ∇ψ = (ψ_R, ψ_Z) ≠ 0 the displacement δ = ∇ψ/|∇ψ|² (along ∇ψ, i.e. across the flux surfaces at constant y)
+changes ψ — the x coordinate — by one unit to first order, ∇ψ·δ = 1, and its squared length is the generated covariant `g_11`
+at `Bp = |∇ψ|/R`: g_11 is the squared distance between neighbouring flux surfaces per unit dx -/
+theorem g_11_is_unit_dx_displacement {R psiR psiZ : ℝ} (hy dphidy cosBeta tanBeta bpsign : ℝ) (hR : R ≠ 0)
+    (hG : psiR ^ 2 + psiZ ^ 2 ≠ 0) :
+    psiR * (psiR / (psiR ^ 2 + psiZ ^ 2)) + psiZ * (psiZ / (psiR ^ 2 + psiZ ^ 2)) = 1 ∧
+    (psiR / (psiR ^ 2 + psiZ ^ 2)) ^ 2 + (psiZ / (psiR ^ 2 + psiZ ^ 2)) ^ 2 =
+      orth.g_11 R (Real.sqrt (psiR ^ 2 + psiZ ^ 2) / R) hy dphidy cosBeta tanBeta bpsign ∧
+    orth.g_11 R (Real.sqrt (psiR ^ 2 + psiZ ^ 2) / R) hy dphidy cosBeta tanBeta bpsign *
+      orth.g11 R (Real.sqrt (psiR ^ 2 + psiZ ^ 2) / R) hy dphidy cosBeta tanBeta bpsign = 1 := by
+  have h : (R * (Real.sqrt (psiR ^ 2 + psiZ ^ 2) / R)) ^ 2 = psiR ^ 2 + psiZ ^ 2 := by
+    rw [mul_div_cancel₀ _ hR, Real.sq_sqrt (by positivity)]
+  refine ⟨by field_simp, ?_, ?_⟩
+  · rw [orth_g_11_eq, h]; field_simp
+  · rw [orth_g_11_eq, orth_g11_eq, h]; field_simp
+
+/-- `(ψ_R, ψ_Z) ≠ 0` in the form used above -/
+theorem gradpsi_sq_ne_zero {psiR psiZ : ℝ} (h : psiR ≠ 0 ∨ psiZ ≠ 0) : psiR ^ 2 + psiZ ^ 2 ≠ 0 := by
+  rcases h with h | h
+  · have := pow_pos (abs_pos.mpr h) 2; rw [sq_abs] at this; nlinarith [sq_nonneg psiZ]
+  · have := pow_pos (abs_pos.mpr h) 2; rw [sq_abs] at this; nlinarith [sq_nonneg psiR]
+
+section examples9
+/-- ∇ψ = (3, 4), R = 2: |∇ψ| = 5, Bp = 5/2, g11 = 25, δ = (3/25, 4/25), g_11 = 1/25 -/
+example := g11_eq_gradpsi_sq (R := 2) (psiR := 3) (psiZ := 4) (1 / 3) (1 / 5) (4 / 5) (3 / 4) 1 (by norm_num)
+example := g11_eq_gradpsi_sq_Bpxy (R := 2) (psiR := 3) (psiZ := 4) (s := -1) (1 / 3) (1 / 5) (4 / 5) (3 / 4) (-1) (by norm_num)
+  (Or.inr rfl)
+example := g_11_is_unit_dx_displacement (R := 2) (psiR := 3) (psiZ := 4) (1 / 3) (1 / 5) (4 / 5) (3 / 4) 1 (by norm_num)
+  (gradpsi_sq_ne_zero (Or.inl (by norm_num)))
+example : orth.g_11 2 (Real.sqrt ((3 : ℝ) ^ 2 + 4 ^ 2) / 2) (1 / 3) (1 / 5) (4 / 5) (3 / 4) 1 = 1 / 25 ∧
+    orth.g11 2 (Real.sqrt ((3 : ℝ) ^ 2 + 4 ^ 2) / 2) (1 / 3) (1 / 5) (4 / 5) (3 / 4) 1 = 25 := by
+  have h5 : Real.sqrt ((3 : ℝ) ^ 2 + 4 ^ 2) = 5 := by
+    rw [show ((3 : ℝ)) ^ 2 + 4 ^ 2 = 5 ^ 2 by norm_num, Real.sqrt_sq (by norm_num)]
+  rw [orth_g_11_eq, orth_g11_eq, h5]; norm_num
+end examples9
 
 end HypnoModel.Props.C02
